@@ -53,7 +53,8 @@ Neg == Cn(-7, 1)
 NegConst == UNION {{Bin(c, Neg, A), Bin(c, A, Neg), Bin(c, Neg, Cn(-2, 1))} : c \in Arith} \cup {Un(u, Neg) : u \in Unary} \cup {Un("minus", Un("minus", Neg)), Un("minus", Cn(-1, 2))}
             \cup {Bin(r, Neg, A) : r \in {"lt", "eq"}} \cup {Pw(<<<<Neg, Bin("lt", A, Neg)>>>>, Un("minus", Neg))}
 NumForms == {"enot", "dot"}      \* (a cn of type real holds a basic real: no exponent there; exponents are spelled in initial values, Gen_Codegen)
-Spellings == UNION {{CnF(3, 1, f), CnF(-3, 1, f), CnF(1, 2, f), Bin("plus", A, CnF(3, 1, f)), Un("minus", CnF(-3, 1, f)), Bin("power", A, CnF(2, 1, f)), Bin("minus", A, CnF(-3, 1, f))} : f \in NumForms}
+Commented == {CiC("a"), CnF(3, 1, "comment"), Bin("plus", CiC("a"), CnF(3, 1, "comment")), Un("minus", CnF(-3, 1, "comment")), Bin("times", CiC("b"), CiC("c"))}
+Spellings == Commented \cup UNION {{CnF(3, 1, f), CnF(-3, 1, f), CnF(1, 2, f), Bin("plus", A, CnF(3, 1, f)), Un("minus", CnF(-3, 1, f)), Bin("power", A, CnF(2, 1, f)), Bin("minus", A, CnF(-3, 1, f))} : f \in NumForms}
 Leaves == {A, Cn(3, 1), Cn(1, 2), Cn(-7, 1), Cn(5, 4), Un("minus", Cn(3, 1))}
 AllTrees == Arith2 \cup Nary \cup Unary2 \cup Rel1 \cup Logic2 \cup RelNest \cup Piecewise \cup Quals \cup Funs \cup RecipTrees \cup (Consts \ {N("true", <<>>), N("false", <<>>)}) \cup {[op |-> "true"], [op |-> "false"]} \cup Leaves \cup NegConst \cup Spellings
 QuickTrees == {t \in AllTrees : TRUE}
